@@ -7,6 +7,7 @@ import contextlib
 import inspect
 import io
 import math
+import random
 
 import numpy as np
 
@@ -47,7 +48,7 @@ def rnd_radius(rnd, lo, hi=800.0, p_plane=0.15):
 def random_lens(rnd, nsurf=None, kinds=("standard",), mirrors=False, tilts=False, catalogue=False,
                 finite_object=None, aperture="EPD", field_type=None, apertures=False, coatings=False,
                 absorbing=False, max_field=None, wavelengths=None, conics=True, stop=None,
-                poly_pow2=True, curved_image=False, optic=None):
+                poly_pow2=True, curved_image=False, optic=None, edits=None):
     """Returns (optic, meta).  Everything goes through the public API."""
     from optiland.optic import Optic
     from optiland.materials import IdealMaterial
@@ -148,4 +149,36 @@ def random_lens(rnd, nsurf=None, kinds=("standard",), mirrors=False, tilts=False
     for i, w in enumerate(wavelengths or [0.4861, 0.5876, 0.6563]):
         o.add_wavelength(w, is_primary=(i == 1 or len(wavelengths or [1, 2, 3]) == 1))
     meta.update(epd=epd, field_type=field_type, max_field=mf)
+    # A lens is a prescription, however it came about: in a quarter of the lenses one radius, one
+    # index and one thickness are edited away and back through the public setters.  (Drawn from a
+    # generator seeded at the very end, so that the prescriptions of all seeds stay what they were.)
+    ernd = random.Random(rnd.getrandbits(48))
+    if edits if edits is not None else ernd.random() < 0.25:
+        sg = o.surface_group
+        done = []
+        cand = [j for j in range(1, n + 1) if type(sg.surfaces[j].geometry).__name__ == "StandardGeometry"
+                and math.isfinite(float(sg.surfaces[j].geometry.radius))]
+        if cand:
+            j = ernd.choice(cand)
+            R0 = float(sg.surfaces[j].geometry.radius)
+            o.set_radius(R0 * 1.5 + 1.0, j)
+            o.set_radius(R0, j)
+            done.append("radius")
+        cand = [j for j in range(1, n + 1) if type(sg.surfaces[j].material_post).__name__ == "IdealMaterial"
+                and not sg.surfaces[j].is_reflective
+                and float(np.ravel(sg.surfaces[j].material_post.k(0.55))[0]) == 0.0
+                and type(sg.surfaces[j].material_post.index).__name__ in ("float", "float64", "int")]
+        if cand:
+            j = ernd.choice(cand)
+            n0 = float(sg.surfaces[j].material_post.index)
+            o.set_index(n0 + 0.125, j)
+            o.set_index(n0, j)
+            done.append("index")
+        if n >= 2:
+            j = ernd.randint(1, n)
+            t0 = float(np.ravel(sg.positions)[j + 1] - np.ravel(sg.positions)[j])
+            o.set_thickness(t0 + 1.0, j)
+            o.set_thickness(t0, j)
+            done.append("thickness")
+        meta["edited_there_and_back"] = done
     return o, meta
